@@ -73,6 +73,11 @@ fn json_text(d: &Doc) -> String {
 }
 
 fn found_json(d: &Doc) -> String {
+    // a float without a JSON form (only the second source can present one) is rendered as the JSON
+    // value it becomes: null
+    if matches!(d, Doc::Float(f) if !f.is_finite()) {
+        return "null".to_string();
+    }
     match d.kind() {
         Kind::Null => "null".to_string(),
         k => format!("{}: `{}`", kinds_phrase_spec(&[k].into_iter().collect::<BTreeSet<_>>()), json_text(d)),
@@ -193,7 +198,7 @@ fn json_path_resolves(msg: &str, payload: &Doc, ev: &Event) -> Result<(), String
     let Some(at) = payload.resolve(&steps) else {
         return Err(format!("path {path} read back from the message does not exist in the payload"));
     };
-    if *at != Doc::Null {
+    if *at != Doc::Null && !matches!(at, Doc::Float(f) if !f.is_finite()) {
         let quoted = toks.last().unwrap();
         let parsed: serde_json::Value =
             serde_json::from_str(quoted).map_err(|_| format!("quoted value {quoted:?} is not JSON text"))?;
@@ -252,16 +257,38 @@ pub fn first_report_pass(e: &Engine, rec: &Recorder, prop: &str) -> Vec<String> 
                             }
                         }
                     }
+                    // containers that hold a non-finite float (second source only) where another kind
+                    // is expected: the message quotes the whole container, the float in it as `null`
+                    let mut cases: Vec<(Src, Doc)> = docs.into_iter().map(|d| (Src::Json, d)).collect();
+                    {
+                        let g = crate::space::Gen::new(e.cat);
+                        for b in g.bases(&root.ty).into_iter().take(2) {
+                            let mut ls = vec![];
+                            leaf_positions(&b, &mut vec![], &mut ls);
+                            for l in ls.iter().take(8) {
+                                for repl in [
+                                    Doc::Seq(vec![Doc::Float(f64::NAN), Doc::Int(1)]),
+                                    Doc::Obj(vec![("x".to_string(), Doc::Seq(vec![Doc::Float(f64::INFINITY)])), ("y".to_string(), Doc::Int(2))]),
+                                    Doc::Seq(vec![Doc::Float(1.5), Doc::Float(f64::NEG_INFINITY), Doc::s("t")]),
+                                ] {
+                                    let mut d = b.clone();
+                                    *d.resolve_mut(l).unwrap() = repl;
+                                    cases.push((Src::Ov, d));
+                                }
+                            }
+                        }
+                    }
                     let mut states = 0u64;
                     let mut execs = 0u64;
                     let mut sigs: HashSet<u64> = HashSet::new();
                     let mut local_kinds: HashSet<String> = HashSet::new();
                     let mut bad = 0;
-                    for doc in &docs {
+                    for (src, doc) in &cases {
+                        let src = *src;
                         if !unambiguous(doc) {
                             continue;
                         }
-                        let keep = execute(entry, Src::Json, doc, &Script::keep_going());
+                        let keep = execute(entry, src, doc, &Script::keep_going());
                         execs += 1;
                         if keep.panicked.is_some() {
                             continue;
@@ -281,7 +308,7 @@ pub fn first_report_pass(e: &Engine, rec: &Recorder, prop: &str) -> Vec<String> 
                         states += 1;
                         for (query, run) in [(false, entry.run_json.unwrap()), (true, entry.run_query.unwrap())] {
                             begin(&Script::keep_going());
-                            let r = std::panic::catch_unwind(|| run(Src::Json, doc));
+                            let r = std::panic::catch_unwind(|| run(src, doc));
                             let _ = end();
                             execs += 1;
                             let Ok(r) = r else {
@@ -290,7 +317,7 @@ pub fn first_report_pass(e: &Engine, rec: &Recorder, prop: &str) -> Vec<String> 
                                     property: prop.into(),
                                     subject: subject.clone(),
                                     message: format!("{} panicked instead of returning a result\n  payload: {}", if query { "deserialize with QueryParamError" } else { "deserialize with JsonError" }, doc.text()),
-                                    replay: json!({"kind": "message", "root": ri, "type": tystr, "query": query, "payload": doc_to_tagged(doc)}),
+                                    replay: json!({"kind": "message", "root": ri, "type": tystr, "query": query, "source": format!("{src:?}"), "payload": doc_to_tagged(doc)}),
                                 });
                                 bad += 1;
                                 continue;
@@ -331,7 +358,7 @@ pub fn first_report_pass(e: &Engine, rec: &Recorder, prop: &str) -> Vec<String> 
                                     property: prop.into(),
                                     subject: subject.clone(),
                                     message: format!("{} {m}\n  payload: {}", if query { "QueryParamError" } else { "JsonError" }, doc.text()),
-                                    replay: json!({"kind": "message", "root": ri, "type": tystr, "query": query, "payload": doc_to_tagged(doc)}),
+                                    replay: json!({"kind": "message", "root": ri, "type": tystr, "query": query, "source": format!("{src:?}"), "payload": doc_to_tagged(doc)}),
                                 });
                                 bad += 1;
                             } else if rec.want_sample() {
